@@ -104,22 +104,51 @@ def _install():
             return True
         # ---- assembled coefficients as observed through the public matrix, in the oracle's row order
         fm = self.force_matrices[when]
+        ji = at.jifaces()
+        col = {k: i for i, k in enumerate(keys)}
+        eps_all = 0.0
+        for j in junctions:
+            for k in ji[j]:
+                if k in col:
+                    a_, b_ = at.ends(k)
+                    eps_all = max(eps_all, fb.eps_class(fit, at.PHI[k], npts[k],
+                                                        max(abs(at.J[a_]), abs(at.J[b_])) / abs(at.J[a_] - at.J[b_])))
+
+        def end_to_end(why, **extra):
+            """the assembled system cannot be compared entry by entry: judge the reported tensions against the truth with
+            the class-based first-order bound, when that bound is informative"""
+            tol_class = 12 * eps_all * np.linalg.norm(x_true) / smin + 1e-9 + \
+                {None: 1e-7 * (1 + 1 / smin), "lsq": 1e-5 * (1 + 1 / smin), "lsq_linear": 2e-4 + 2.5e-7 / smin ** 4}[c["method"]]
+            if tol_class > 0.05 * x_true.max():
+                c["skip"] = why
+                return True
+            got_ = np.array([b.tension for b in frame.internal_big_edges], float)
+            err_ = float(np.abs(got_ - x_true).max()) if np.all(np.isfinite(got_)) else float("inf")
+            c["tol"] = tol_class
+            c["eps"] = eps_all
+            if err_ > tol_class:
+                mon.fail("tension", "reported tension = true tension / mean true tension of the inferred interfaces",
+                         name="BigEdge.tension", err=err_, tol=tol_class, judged="end-to-end:" + why, eps=eps_all,
+                         method=c["method"], fit=fit, fam=c["fam"], pose=c["pose"], resampled=c["ne"], **extra)
+            c["worst"] = 0.0
+            c["shape"] = list(A0.shape)
+            c["straddle"] = 0
+            c["path"] = getattr(fm, "_verif", {}).get("path")
+            c["end_to_end"] = why
+            return True
         rows = []
         for j in junctions:
             rr = fm.map_vid_to_row.get(r.jmap[j])
             if rr is None:
-                c["skip"] = "junction-missing-in-code"       # C02's subject
-                return True
+                # which junctions get equations is C02's subject; here only the consequence for the tensions counts
+                return end_to_end("junction-missing-in-code", junction=int(j), degree=len(ji[j]))
             rows += [rr, rr + 1]
         if fm.matrix.shape[1] != len(keys) or len(fm.map_vid_to_row) != len(junctions):
-            c["skip"] = "system-shape-differs"               # C02's subject
-            return True
+            return end_to_end("system-shape-differs", got=list(fm.matrix.shape), want=list(A0.shape))
         A_code = fm.matrix[rows, :]
         dA = A_code - A0
         straddle = 0
         out_of_class = 0
-        ji = at.jifaces()
-        col = {k: i for i, k in enumerate(keys)}
 
         def tq(k, j):
             return fb.q_mirror(at.tangent(k, j), scen.first_segment(c["r2"], k, j))
@@ -315,6 +344,8 @@ def _one(rng, fam, mon, sigs, hist, metrics):
         hist["skip:" + cur["skip"]] = hist.get("skip:" + cur["skip"], 0) + 1
         return
     if "shape" in cur:
+        if cur.get("end_to_end"):
+            hist["end-to-end:" + cur["end_to_end"]] = hist.get("end-to-end:" + cur["end_to_end"], 0) + 1
         if cur.get("path"):
             hist["path:" + cur["path"]] = hist.get("path:" + cur["path"], 0) + 1
         if cur["straddle"]:
